@@ -146,6 +146,65 @@ func body(w *runner.W) {
 		small.Done()
 	}
 
+	// ---- medium scope: self-similar low-alphabet sequences ----------------
+	// Old = the first L symbols of the Thue-Morse word, the Fibonacci word or a 7-bit
+	// LFSR sequence (L in {32,48,64,96}); new = every rotation, every deletion and every
+	// duplication of a segment of 1, 2, 5, 9 or 17 symbols at every third position, every
+	// single flip at every third position, old followed by each of its suffixes (every
+	// fourth), and the same-length prefix of the two other sequences. Matches found by the
+	// scanner then overlap forwards and backwards, which inputs of <= 8 symbols (too short
+	// for a match) and high-entropy large inputs (no ambiguity) never produce.
+	var medium *runner.Sub[DiffCase]
+	medium = runner.NewSub(w, "medium", func(c DiffCase, r *runner.Rec) {
+		runDiffCase(w, getAp(), c, r)
+		medium.Bulk(int64(len(c.News)*len(c.Parts)-1), 0, 0)
+	}, runner.Journal())
+	if medium.Active() {
+		seqs := mediumSeqs(96)
+		lens := []int{32, 48, 64, 96}
+		parts := []int{0, 1, 2, 3, 7}
+		if w.Quick() {
+			lens = []int{32, 64}
+			parts = []int{0, 2}
+		}
+		n := 0
+		for si, full := range seqs {
+			for _, L := range lens {
+				o := full[:L]
+				var news []string
+				for k := 1; k < L; k++ {
+					news = append(news, o[k:]+o[:k])
+				}
+				for i := 0; i < L; i += 3 {
+					for _, l := range []int{1, 2, 5, 9, 17} {
+						if i+l <= L {
+							news = append(news, o[:i]+o[i+l:], o[:i+l]+o[i:])
+						}
+					}
+					news = append(news, o[:i]+string('0'+('1'-o[i]))+o[i+1:])
+				}
+				for k := 0; k < L; k += 4 {
+					news = append(news, o+o[k:])
+				}
+				for sj, other := range seqs {
+					if sj != si {
+						news = append(news, other[:L])
+					}
+				}
+				// a handful of new strings per case so that the journal stays small
+				for lo := 0; lo < len(news); lo += 16 {
+					hi := lo + 16
+					if hi > len(news) {
+						hi = len(news)
+					}
+					medium.Do(DiffCase{Alpha: 2, Old: o, News: news[lo:hi], Parts: parts, Conc: concs[n%3], Warm: n%4 == 3})
+					n++
+				}
+			}
+		}
+		medium.Done()
+	}
+
 	// ---- structured large family ---------------------------------------
 	var large *runner.Sub[DiffCase]
 	large = runner.NewSub(w, "large", func(c DiffCase, r *runner.Rec) {
@@ -294,6 +353,31 @@ func body(w *runner.W) {
 		}
 		lru.Done()
 	}
+}
+
+// mediumSeqs: n symbols over {0,1} of the Thue-Morse word, the Fibonacci word and the
+// output of the LFSR x^7+x^6+1 (period 127).
+func mediumSeqs(n int) []string {
+	tm := make([]byte, n)
+	for i := range tm {
+		b := 0
+		for x := i; x > 0; x >>= 1 {
+			b ^= x & 1
+		}
+		tm[i] = byte('0' + b)
+	}
+	fa, fb := "0", "01"
+	for len(fb) < n {
+		fa, fb = fb, fb+fa
+	}
+	lf := make([]byte, n)
+	st := uint(0x5a)
+	for i := range lf {
+		bit := (st>>6 ^ st>>5) & 1
+		st = (st<<1 | bit) & 0x7f
+		lf[i] = byte('0' + bit)
+	}
+	return []string{string(tm), fb[:n], string(lf)}
 }
 
 func hasSym2(s string) bool {
